@@ -16,6 +16,13 @@ NOMATCH_PATCHES = [
     ("import-guard-expr-name-2", b"@@\nvar x expression\nvar os expression\n@@\n-import os \"os\"\n+import \"zzz/yep\"\n\n-os.Exit(x)\n+yep.Exit(x)\n"),
     ("import-guards", b"@@\nvar x expression\nvar n identifier\n@@\n import n \"zzz/nope\"\n-import \"zzz/nope2\"\n+import \"zzz/yep\"\n\n-n.f(x)\n+yep.g(x)\n"),
     ("two-changes", b"@@\n@@\n-zzzNope()\n+zzzYep()\n\n# second\n@@\n@@\n-zzzNope2\n+zzzYep2\n"),
+    # statement patterns whose elisions stand next to the implicit ones, or next to each other
+    ("stmt-leading-dots", b"@@\n@@\n ...\n-zzzNope()\n+zzzYep()\n"),
+    ("stmt-dots-around", b"@@\n@@\n ...\n-zzzNope()\n+zzzYep()\n ...\n"),
+    ("stmt-trailing-dots", b"@@\n@@\n-zzzNope()\n+zzzYep()\n ...\n"),
+    ("stmt-two-dots", b"@@\n@@\n ...\n ...\n-zzzNope()\n+zzzYep()\n"),
+    ("args-two-dots", b"@@\n@@\n-zzzNope(..., ..., 1)\n+zzzYep(...)\n"),
+    ("fields-dots", b"@@\n@@\n type zzzNope struct {\n   ...\n-  zzzOld int\n+  zzzNew int\n   ...\n }\n"),
 ]
 
 QUICK_FLAGSETS = [
